@@ -52,6 +52,15 @@ func c20(r *Report) propMeta {
 	r.GateAny("chain-cooldown-rule", ss, CallEff("types.NewValidatorPrice"), []Cond{
 		{Op: "EQL", A: []string{"field:ValidatorPrice.SignalPriceStatus"}, B: []string{w.ConstAtom(ft, "SIGNAL_PRICE_STATUS_UNSPECIFIED")}, Want: true, Desc: "no previous price"},
 		{Op: "LSS", A: []string{"call:Time.Unix", "call:Context.BlockTime"}, B: []string{"^binop:+", "field:ValidatorPrice.Timestamp", "field:Params.CooldownTime"}, Want: false, Desc: "not (blockTime < latest.Timestamp + CooldownTime)"}}, 1)
+	r.FailureCensus("submission-rejections", ss, map[string]reject{
+		"too-many-prices":  {[]string{"global:types.ErrSignalPricesTooLarge"}, []Cond{{Op: "LSS", A: []string{"len", "field:CurrentFeeds.Feeds"}, B: []string{"len", "field:MsgSubmitSignalPrices.SignalPrices"}, Want: true}}},
+		"bad-validator":    {[]string{"^~call:types.ValAddressFromBech32"}, nil},
+		"not-required":     {[]string{"^~call:Keeper.ValidateValidatorRequiredToSend"}, nil},
+		"bad-timestamp":    {[]string{"global:types.ErrInvalidTimestamp"}, []Cond{{Op: "LSS", A: []string{"field:Params.AllowableBlockTimeDiscrepancy"}, B: []string{"call:types.AbsInt64"}, Want: true}}},
+		"not-current-feed": {[]string{"global:types.ErrSignalIDNotSupported"}, []Cond{{Op: "BOOL", A: []string{"^extract", "lookup", "field:SignalPrice.SignalID"}, Want: false}}},
+		"cooldown":         {[]string{"global:types.ErrPriceSubmitTooEarly"}, []Cond{{Op: "LSS", A: []string{"call:Time.Unix", "call:Context.BlockTime"}, B: []string{"^binop:+", "binops=+", "field:ValidatorPrice.Timestamp", "field:Params.CooldownTime"}, Want: true}}},
+		"store-error":      {[]string{"^~call:Keeper.SetValidatorPriceList"}, nil},
+	})
 	su2 := sg + "shouldUpdatePrice"
 	tooEarly := Cond{Op: "LSS", A: []string{"^param:now"}, B: []string{"^call:time.Unix", "binop:+", "binops=+", "field:ValidatorPrice.Timestamp", "field:Params.CooldownTime", "const:" + trimConst(w.ConstAtom("grogu/signaller", "TimeBuffer"))}, Want: false, Desc: "not now.Before(old.Timestamp + CooldownTime + TimeBuffer)"}
 	r.Gate("daemon-cooldown-at-least-as-late", su2, RetConst(0, "true"), []Cond{tooEarly}, GateOpts{MinSites: 2})
